@@ -231,6 +231,15 @@ def check_c14(prop, tier):
         for s in range(1 if n > 1 else 0, n + 2):
             for traj in ("maximum", "revolve"):
                 groups.append((n, s, traj))
+    # large-unit layer: more than a thousand stack positions, a few splits
+    big_groups = []
+    for n in ((1100,) if tier == "quick" else (1100, 3000)):
+        for s in (n - 1, n - 2, n - 3, n // 2, 1001):
+            for traj in ("maximum", "revolve"):
+                big_groups.append((n, s, traj))
+    res.bounds["large_unit_layer"] = [list(g) for g in big_groups]
+    n_small = len(groups)
+    groups = groups + big_groups
 
     def worker(idxs):
         out = []
@@ -241,7 +250,9 @@ def check_c14(prop, tier):
             ntr = 0
             nact = 0
             nsplit = 0
-            for ram in range(0, s + 1):
+            rams = range(0, s + 1) if gi < n_small else \
+                (0, 1, s // 3, s // 2, s - 1)
+            for ram in rams:
                 cfg = D.Config("Multistage", (ram, s - ram, traj), n)
                 p = c14_profile(cfg)
                 nsplit += 1
@@ -333,8 +344,8 @@ def c14_replay_eval(cfg):
 # ===========================================================================
 # C16
 # ===========================================================================
-C16_BOUNDS = {"quick": dict(NT=60, NS=40, NBIG=70000),
-              "thorough": dict(NT=110, NS=72, NBIG=300000)}
+C16_BOUNDS = {"quick": dict(NT=60, NS=40, NBIG=70000, WIDE=(720, 30)),
+              "thorough": dict(NT=110, NS=72, NBIG=300000, WIDE=(1200, 40))}
 
 
 def norm_action(a):
@@ -371,8 +382,12 @@ def check_c16(prop, tier):
     mixed = common.repo_mod("mixed")
     # ---- planner tables, entry by entry
     nontriv = 0
-    for n in list(range(1, 12)) + [B["NT"]]:
-        s = max(n - 1, 0)
+    wide = tuple(B["WIDE"])
+    for n in list(range(1, 12)) + [B["NT"], wide]:
+        if isinstance(n, tuple):
+            n, s = n          # a wide table: large n, moderately many units
+        else:
+            s = max(n - 1, 0)
         try:
             tab = mixed.mixed_steps_tabulation(n, s)
         except Exception as e:  # noqa: BLE001
